@@ -265,6 +265,10 @@ func cmdCheck(args []string) int {
 			if r.PreSat == "unsat" {
 				fmt.Fprintf(os.Stderr, "VACUOUS %s: preconditions are unsatisfiable\n", r.Key)
 				failures = append(failures, failure{fr: r})
+			} else if len(r.Vacuous) > 0 {
+				fmt.Fprintf(os.Stderr, "VACUOUS %s: unreachable under the collected hypotheses: %s\n", r.Key, strings.Join(r.Vacuous, "; "))
+				r.GenError = "vacuous: program point unreachable under the hypotheses: " + strings.Join(r.Vacuous, "; ")
+				failures = append(failures, failure{fr: r})
 			}
 			for _, n := range r.Notes {
 				trusted["abstracted in "+shortKey(r.Key)+": "+n] = true
